@@ -133,4 +133,150 @@ def shared_writes(tree: ast.Module) -> List[Tuple[str, int, str]]:
                     walk_defs(blk, prefix, cls)
 
     walk_defs(tree.body, "", "")
+    out.extend(_module_instances(tree))
+    out.extend(_mutable_defaults(tree))
+    out.extend(_import_time_environment(tree))
+    return out
+
+
+def _toplevel(tree):
+    """module-level statements, looking through try / if / with blocks (optional-dependency fallbacks live there)"""
+    work = list(tree.body)
+    while work:
+        st = work.pop(0)
+        yield st
+        if isinstance(st, (ast.Try, ast.If, ast.With)):
+            blocks = [st.body, getattr(st, "orelse", [])]
+            if isinstance(st, ast.Try):
+                blocks += [h.body for h in st.handlers] + [st.finalbody]
+            for b in blocks:
+                work = list(b) + work
+
+
+def _self_writes(fn: ast.FunctionDef):
+    """attributes of `self` a method (re)binds or mutates"""
+    if not fn.args.args:
+        return []
+    me = fn.args.args[0].arg
+    hits = []
+    for n in ast.walk(fn):
+        tg = []
+        if isinstance(n, ast.Assign):
+            tg = list(n.targets)
+        elif isinstance(n, (ast.AugAssign, ast.AnnAssign)):
+            tg = [n.target]
+        flat = []
+        for t in tg:
+            flat.extend(t.elts if isinstance(t, (ast.Tuple, ast.List)) else [t])
+        for t in flat:
+            base = t.value if isinstance(t, ast.Subscript) else t
+            if isinstance(base, ast.Attribute) and isinstance(base.value, ast.Name) and base.value.id == me:
+                hits.append((base.attr, n.lineno))
+        if isinstance(n, ast.Call) and isinstance(n.func, ast.Attribute) and n.func.attr in MUTATORS:
+            b = n.func.value
+            if isinstance(b, ast.Attribute) and isinstance(b.value, ast.Name) and b.value.id == me:
+                hits.append((b.attr, n.lineno))
+    return hits
+
+
+def _module_instances(tree: ast.Module) -> List[Tuple[str, int, str]]:
+    """One object of a class of this module, made at import time and used by functions: whatever its methods keep on `self`
+    outside __init__ is carried from one call to the next, for every connection of the process."""
+    classes = {st.name: st for st in _toplevel(tree) if isinstance(st, ast.ClassDef)}
+    out = []
+    for st in _toplevel(tree):
+        if not (isinstance(st, (ast.Assign, ast.AnnAssign)) and isinstance(getattr(st, "value", None), ast.Call)):
+            continue
+        f = st.value.func
+        cname = f.id if isinstance(f, ast.Name) else None
+        if cname not in classes:
+            continue
+        names = [t.id for t in (st.targets if isinstance(st, ast.Assign) else [st.target]) if isinstance(t, ast.Name)]
+        if not names:
+            continue
+        # methods called on the instance from functions of the module
+        called = {n.func.attr for fn in ast.walk(tree) if isinstance(fn, (ast.FunctionDef, ast.Lambda)) for n in ast.walk(fn)
+                  if isinstance(n, ast.Call) and isinstance(n.func, ast.Attribute) and isinstance(n.func.value, ast.Name) and n.func.value.id in names}
+        cls = classes[cname]
+        methods = {m.name: m for m in cls.body if isinstance(m, ast.FunctionDef)}
+        # closure over self-calls inside the class
+        work, reach = list(called), set()
+        while work:
+            m = work.pop()
+            if m in reach or m not in methods:
+                continue
+            reach.add(m)
+            for n in ast.walk(methods[m]):
+                if isinstance(n, ast.Call) and isinstance(n.func, ast.Attribute) and isinstance(n.func.value, ast.Name) and n.func.value.id == "self":
+                    work.append(n.func.attr)
+        for m in sorted(reach):
+            if m == "__init__":
+                continue
+            for attr, line in _self_writes(methods[m])[:1]:
+                out.append((f"{cname}.{m}", line, f"keeps state in self.{attr} of {names[0]}, the one {cname} object made at import time and used for every call"))
+    return out
+
+
+def _mutable_defaults(tree: ast.Module) -> List[Tuple[str, int, str]]:
+    """def f(x, acc={}): a default that is a mutable object is made once; a body that changes it (or hands it out) shares it between calls."""
+    out = []
+
+    def visit(fn, qual):
+        a = fn.args
+        pos = a.posonlyargs + a.args
+        pairs = list(zip(pos[len(pos) - len(a.defaults):], a.defaults)) + [(p, d) for p, d in zip(a.kwonlyargs, a.kw_defaults) if d is not None]
+        for p, d in pairs:
+            if not _is_mutable_init(d):
+                continue
+            name = p.arg
+            rebound_first = False
+            for n in ast.walk(fn):
+                hit = None
+                if isinstance(n, (ast.Assign, ast.AugAssign, ast.AnnAssign)):
+                    for t in (n.targets if isinstance(n, ast.Assign) else [n.target]):
+                        if isinstance(t, ast.Subscript) and isinstance(t.value, ast.Name) and t.value.id == name:
+                            hit = f"stores into its default argument {name}"
+                        if isinstance(n, ast.AugAssign) and isinstance(t, ast.Name) and t.id == name:
+                            hit = f"updates its default argument {name} in place"
+                elif isinstance(n, ast.Call) and isinstance(n.func, ast.Attribute) and n.func.attr in MUTATORS and isinstance(n.func.value, ast.Name) and n.func.value.id == name:
+                    hit = f"calls .{n.func.attr}() on its default argument {name}"
+                elif isinstance(n, ast.Delete) and any(isinstance(t, ast.Subscript) and isinstance(t.value, ast.Name) and t.value.id == name for t in n.targets):
+                    hit = f"deletes from its default argument {name}"
+                elif isinstance(n, ast.Return) and n.value is not None and any(isinstance(x, ast.Name) and x.id == name for x in ast.walk(n.value)):
+                    hit = f"returns its default argument {name}"
+                if hit:
+                    out.append((qual, n.lineno, f"{hit} ({ast.unparse(d)[:20]}: one object made at definition time and shared by every call that omits the argument)"))
+                    break
+
+    def rec(body, prefix):
+        for st in body:
+            if isinstance(st, (ast.FunctionDef, ast.AsyncFunctionDef)):
+                visit(st, f"{prefix}{st.name}")
+                rec(st.body, f"{prefix}{st.name}.")
+            elif isinstance(st, ast.ClassDef):
+                rec(st.body, f"{prefix}{st.name}.")
+            elif isinstance(st, (ast.Try, ast.If, ast.With)):
+                for blk in ([st.body, getattr(st, "orelse", [])] + ([h.body for h in st.handlers] + [st.finalbody] if isinstance(st, ast.Try) else [])):
+                    rec(blk, prefix)
+
+    rec(tree.body, "")
+    return out
+
+
+def _import_time_environment(tree: ast.Module) -> List[Tuple[str, int, str]]:
+    """os.environ consulted by a module-level statement: the value of the process at import time is frozen in; what the
+    environment says when a connection is made is never looked at."""
+    out = []
+    for st in _toplevel(tree):
+        if isinstance(st, (ast.FunctionDef, ast.AsyncFunctionDef, ast.ClassDef, ast.Try, ast.If, ast.With, ast.Import, ast.ImportFrom)):
+            continue
+        for n in ast.walk(st):
+            if isinstance(n, (ast.Lambda,)):
+                break
+            env = (isinstance(n, ast.Attribute) and n.attr == "environ" and isinstance(n.value, ast.Name) and n.value.id == "os") or \
+                  (isinstance(n, ast.Call) and ((isinstance(n.func, ast.Attribute) and n.func.attr == "getenv") or (isinstance(n.func, ast.Name) and n.func.id == "getenv")))
+            if env:
+                tgt = ast.unparse(st.targets[0]) if isinstance(st, ast.Assign) else ast.unparse(st.target) if isinstance(st, ast.AnnAssign) else "<module>"
+                out.append((f"<import> {tgt}", st.lineno, f"reads the environment when the module is imported ({ast.unparse(st)[:70]}): later changes of the variable are never seen"))
+                break
     return out
